@@ -3,12 +3,18 @@
    (coalescing allowed), notifications can be reset or fail; invariants: notifications only to registered observers,
    strictly fresher Observe values (24-bit wrap), at most five NON in a row, one entry per (client, resource, query). *)
 EXTENDS Observe
-CONSTANTS Clients, Start, MaxChanges
+CONSTANTS Clients, Start, MaxChanges, ResourceWideDirty
 VARIABLES s, counter, dirty, changes, sentTo
 vars == <<s, counter, dirty, changes, sentTo>>
 Keys == {<<c, 0, "">> : c \in Clients}
 Init == s = InitObs(0) /\ counter = Start /\ dirty = {} /\ changes = 0 /\ sentTo = << >>
-ARegister == \E k \in Keys : /\ s' = Register_do(s, k, k[1], counter, changes) /\ UNCHANGED <<counter, dirty, changes, sentTo>>
+\* The registration response carries the current value and state: for that observer nothing is pending any more.  That is the design
+\* (dirty is kept per observer).  libcoap keeps ONE dirty flag per resource (plus per-observer flags for deferred sends): a pass that is
+\* still pending when a registration arrives notifies the new observer too - with the value its registration response already carried
+\* (ResourceWideDirty = TRUE, KF_C11_PENDING_CHANGE_REPEATS_REGISTRATION_VALUE; MC_Observe_asbuilt.cfg lets TLC find it).
+ARegister == \E k \in Keys : /\ s' = Register_do(s, k, k[1], counter, changes)
+                             /\ dirty' = IF ResourceWideDirty THEN (IF dirty # {} THEN dirty \cup {k} ELSE dirty) ELSE dirty \ {k}
+                             /\ UNCHANGED <<counter, changes, sentTo>>
 ACancel   == \E k \in DOMAIN s.obs : /\ s' = Deregister_do(s, k) /\ dirty' = dirty \ {k} /\ UNCHANGED <<counter, changes, sentTo>>
 AChange   == /\ changes < MaxChanges /\ DOMAIN s.obs # {} /\ counter' = (counter + 1) % Mod /\ dirty' = DOMAIN s.obs /\ changes' = changes + 1
              /\ UNCHANGED <<s, sentTo>>
@@ -21,6 +27,8 @@ Next == ARegister \/ ACancel \/ AChange \/ ANotify \/ AReset
 Spec == Init /\ [][Next]_vars
 FairSpec == Spec /\ WF_vars(ANotify)
 Monotone == \A i \in 1..Len(sentTo) : sentTo[i].prev < 0 \/ sentTo[i].prev = sentTo[i].val \/ Fresher(sentTo[i].prev, sentTo[i].val)
+\* ... strictly: never the value the observer already has
+MonotoneStrict == \A i \in 1..Len(sentTo) : sentTo[i].prev < 0 \/ Fresher(sentTo[i].prev, sentTo[i].val)
 StrictAfterChange == \A k \in DOMAIN s.obs : s.obs[k].non <= MaxNon
 OneEntry == \A k1, k2 \in DOMAIN s.obs : (k1[1] = k2[1] /\ k1[2] = k2[2] /\ k1[3] = k2[3]) => k1 = k2
 DirtyRegistered == dirty \subseteq DOMAIN s.obs
